@@ -160,6 +160,20 @@ pub fn san_text(ctx: &mut Ctx, t: &str, boards: &[(String, Board)]) {
     }
 }
 
+/// san_text on one position whose FEN is only written out when needed
+pub fn san_text_pos(ctx: &mut Ctx, t: &str, p: &Pos, boards: &[(String, Board)]) {
+    let nv = ctx.nviol;
+    san_text(ctx, t, boards);
+    if ctx.nviol > nv {
+        // re-run with the position named, so that the recorded case is replayable
+        let named = vec![(text::fen(p), boards[0].1.clone())];
+        let keep = ctx.viol.len().saturating_sub((ctx.nviol - nv) as usize);
+        ctx.viol.truncate(keep);
+        ctx.nviol = nv;
+        san_text(ctx, t, &named);
+    }
+}
+
 pub fn small_text(ctx: &mut Ctx, t: &str) {
     ctx.states += 1;
     set_slot_text(P_SMALL, t);
@@ -395,6 +409,27 @@ pub fn run(run: &mut Run) {
         }
     });
     fen_edits(run, &|ctx, t| fen_text(ctx, t));
+    // SAN texts in positions where many pieces of one kind reach one square (ambiguity paths):
+    // the canonical and the undisambiguated text of every pseudo-legal move, in its position
+    run.par_shards("SANMANY positions x canonical / undisambiguated SAN of every move", crate::universe::SANMANY_SHARDS, |ctx, sh| {
+        crate::universe::sanmany(sh, &mut |p| {
+            let Some(b) = board_of(p) else { return };
+            let bs = vec![(String::new(), b)];
+            let legal = p.legal();
+            let mut seen = std::collections::HashSet::new();
+            for m in p.pseudo_vec() {
+                let mut ts = vec![text::san_naive(p, m), text::uci(m)];
+                if legal.contains(&m) {
+                    ts.push(text::san(p, &legal, m));
+                }
+                for t in ts {
+                    if seen.insert(t.clone()) {
+                        san_text_pos(ctx, &t, p, &bs);
+                    }
+                }
+            }
+        });
+    });
 
     // (c) FEN field product
     fen_product(run, &|ctx, t| fen_text(ctx, t));
